@@ -178,6 +178,13 @@ def law_trace(run, npairs, ntriples):
     mixed = sp[6:] + [v for v in vals if isinstance(v, str)][:6]
     for i in range(ntriples // 3):
         items.append(('triple', (rng.choice(mixed), rng.choice(mixed), rng.choice(mixed)), 'wrapped'))
+    import datetime
+    timed = [datetime.datetime(2021, 6, 1), datetime.datetime(2021, 6, 1, 12, 0), datetime.datetime(2021, 6, 2), datetime.datetime(2021, 6, 1, 6, 0),
+             44348, 44348.5, 44349, 44348.25]
+    for a in timed:
+        for b in timed:
+            for c in timed:
+                items.append(('triple', (a, b, c), 'wrapped'))
     events = [e for part in pool.pmap(law_worker, items) for e in part]
     run.evaluations += 9 * len(events)
     trace.validate(run, events, module='Trace_C09Laws', kind='law', name='laws',
